@@ -7,16 +7,6 @@ import Driver.Wire
 open Lean (Json)
 open Koda Koda.Wire
 
-def lookupTable (tbl : List (List Nat × Option PyVal)) (missed : IO.Ref Bool) : List Nat → Option PyVal :=
-  fun s => match tbl.find? (fun e => e.1 == s) with
-    | some e => e.2
-    | none => none
-
-/-- does the table have an entry for every string the default coercers may look up? (checked
-    lazily: a table-miss is flagged by re-running with a miss-detecting oracle) -/
-def tableHas (tbl : List (List Nat × Option PyVal)) (s : List Nat) : Bool :=
-  tbl.any (fun e => e.1 == s)
-
 def handleRun (j : Json) : D Json := do
   let mode ← match ← str j "mode" with
     | "sync" => pure Mode.sync
